@@ -214,7 +214,7 @@ func bodyVariants(inner []AttrD, class int) [][]*Node {
 	return [][]*Node{v0, v1, v2}
 }
 
-var labelSets = [][]string{{"a", "a"}, {"b", "a"}, {"a", "b"}}
+var labelSets = [][]string{{"a", "a", "a", "a"}, {"b", "a", "a", "a"}, {"a", "b", "a", "a"}, {"a", "a", "a", "b"}}
 
 // instanceAlphabet: the distinct block instances a block type can have.
 func instanceAlphabet(b *BlockD, class int) []*Node {
@@ -237,6 +237,10 @@ func instanceAlphabet(b *BlockD, class int) []*Node {
 	}
 	if b.NLabels == 2 && class < 2 {
 		out = append(out, mk(labelSets[2], bodies[0]))
+	}
+	if b.NLabels == 4 {
+		// blocks that share all labels but the last
+		out = append(out, mk(labelSets[3], bodies[0]))
 	}
 	return out
 }
